@@ -352,6 +352,10 @@ def execute(plan, tape):
         if aged[0] == "ok" and isinstance(aged[2], tuple) and aged[2] and aged[2][0] == "script-roundtrip-broken":
             raise Violation("C14:script_serialize:depends-on-earlier-commands",
                             "step %d: serialising a script with one printer: %s" % (step, aged[2][1]))
+        for out_ in (aged, spec_out):
+            if out_[0] == "ok" and isinstance(out_[2], tuple) and out_[2] and out_[2][0] == "factory-preferences-foreign":
+                raise Violation("C14:factory:preferences-shared",
+                                "step %d: %s (%s environment)" % (step, out_[2][1], "aged" if out_ is aged else "brand-new"))
         if aged[0] == "ok" and isinstance(aged[2], tuple) and aged[2] and aged[2][0] == "fresh-collides":
             raise Violation("C14:fresh:collides", "FreshSymbol returned the existing user symbol %s" % aged[2][1])
         # ---- symbols introduced by the call did not exist before it ("fresh" means new)
